@@ -381,6 +381,11 @@ def getRes (s : MState R) (k : String) : List R := s.pub k
 /-- `GetRules` (in some map order: compare as a multiset) -/
 def getAll (s : MState R) : List R := s.keys.eraseDups.flatMap s.pub
 
+/-- a rule list grouped by a key, groups in the given order, **the order within a group kept** (what can be compared
+    of a `GetRules` result when every key's rules come from one map entry) -/
+def groupStable {α : Type} (key : α → String) (order : List String) (l : List α) : List α :=
+  order.flatMap fun k => l.filter fun x => key x == k
+
 /-! ### a generator that errors or panics (the registry is open: `SetTrafficShapingGenerator`, `SetCircuitBreakerGenerator`)
 
 `custom r` says that `r` is built by the harness' generator, whose behaviour at the time of a load is `g`. -/
@@ -575,7 +580,7 @@ clock by 100 s before every probe).  `none` = the decision of some enforced rule
 
 /-- flow: `curCount + batch > threshold` (Reject) / `threshold ≤ 0 ∨ batch > threshold` (Throttling) with `curCount = 0` -/
 def flowProbe (enf : List FlowRule) (batch : Nat) : Option Bool :=
-  if enf.all (fun r => r.tcs = 0 ∧ r.rel = 0) then some (enf.any fun r => decide ((batch : Int) * thQ > r.th)) else none
+  if enf.all (fun r => r.tcs = 0 ∧ r.rel = 0 ∧ r.statMs ≤ 90000) then some (enf.any fun r => decide ((batch : Int) * thQ > r.th)) else none
 
 /-! #### flow: a short sequence of requests at one instant after the idle gap
 
@@ -589,9 +594,10 @@ the sequence stops there). -/
 /-- rules whose decision in a sequence is modelled: current-resource rules; warm-up only with Reject and a cold
     threshold `T / coldFactor` that is not an integer (so that the last ulp of the float expression cannot matter) -/
 def flowSeqKnown (r : FlowRule) : Bool :=
-  decide (r.rel = 0) &&
+  decide (r.rel = 0) && decide (r.statMs ≤ 90000) &&      -- a longer window / pacing interval outlives the 100 s idle gap
   (decide (r.tcs = 0) || decide (r.tcs = 2) ||
    (decide (r.tcs = 1) && decide (r.cb = 0) && decide (r.th % thQ = 0) && decide (r.th ≤ 2 ^ 40 * thQ) && decide (r.th % ((r.wuCf : Int) * thQ) ≠ 0) &&
+    decide (r.wuPeriod ≤ 1000000) && decide (r.wuCf ≤ 1000000) &&
     decide (2 * (r.wuPeriod : Int) * r.th ≥ (1 + (r.wuCf : Int)) * thQ)))     -- maxToken > warningToken (else the slope is +Inf: C11's warmup-nan)
 
 /-- the threshold in force, in units of 2^-60 -/
@@ -644,7 +650,8 @@ def cbOpens (r : CbRule) : Bool :=
     decide (r.strategy ≤ 2) &&                          -- the harness' own breaker (strategy 7) never opens
     (if r.strategy = 2 then decide (r.th < 2 * thQ)          -- errorCount 1 ≥ uint64(threshold)
      else decide (r.th ≤ thQ) || f64Equals thQ r.th)     -- ratio 1 > threshold || Float64Equals(1, threshold)
-def cbProbe (enf : List CbRule) : Bool := enf.any cbOpens
+/-- `none`: some window is longer than the idle gap, so what earlier probes left behind still counts -/
+def cbProbe (enf : List CbRule) : Option Bool := if enf.all (fun r => r.statMs ≤ 90000) then some (enf.any cbOpens) else none
 
 /-- system: inbound request, idle inbound node, load = 4, cpu usage = 0.75 -/
 def sysBlocks (r : SysRule) : Bool :=
